@@ -240,6 +240,28 @@ Fixpoint eval (mf : nat) : expr -> ctx -> outcome :=
             | OutOfFuel => OutOfFuel
             | _ => Val None
             end
+        | F_filter_keys | F_map_keys | F_filter_values | F_map_values | F_sort_by_values_by =>
+            match ev_arg args 0%nat c with
+            | Val (Some (JObj m)) =>
+                let on_key := match f with F_filter_keys | F_map_keys => true | _ => false end in
+                match all_vals (map (fun kv => ev_arg args 1%nat (with_input c (if on_key then JStr (fst kv) else snd kv))) m) with
+                | None => OutOfFuel
+                | Some rs =>
+                    let prs := combine m rs in
+                    match f with
+                    | F_filter_keys | F_filter_values =>
+                        Val (Some (JObj (map fst (filter (fun p => match snd p with Some (JBool true) => true | _ => false end) prs))))
+                    | F_map_keys =>
+                        Val (Some (JObj (fold_left (fun acc p => match snd p with Some (JStr k) => obj_insert k (snd (fst p)) acc | _ => acc end) prs [])))
+                    | F_map_values =>
+                        Val (Some (JObj (fold_left (fun acc p => match snd p with Some v => obj_insert (fst (fst p)) v acc | None => acc end) prs [])))
+                    | _ (* F_sort_by_values_by *) =>
+                        Val (Some (JObj (map fst (ssort (fun a b => ojcmp (snd a) (snd b)) prs))))
+                    end
+                end
+            | OutOfFuel => OutOfFuel
+            | _ => Val None
+            end
         | F_fold =>
             match ev_arg args 0%nat c with
             | Val (Some (JArr l)) =>
